@@ -11,7 +11,7 @@ Open Scope Z_scope.
 Definition ctlv (st : cst) := (c_pc st, c_rd st, c_ctr st, c_dead st, c_ops st).
 
 Definition sim (s1 s2 : rstate) : Prop :=
-  r_reg s1 = r_reg s2 /\ r_pubs s1 = r_pubs s2 /\ forall c, ctlv (r_cs s1 c) = ctlv (r_cs s2 c).
+  r_reg s1 = r_reg s2 /\ r_pubs s1 = r_pubs s2 /\ r_cancel s1 = r_cancel s2 /\ forall c, ctlv (r_cs s1 c) = ctlv (r_cs s2 c).
 
 Lemma ctlv_fields a b :
   ctlv a = ctlv b -> c_pc a = c_pc b /\ c_rd a = c_rd b /\ c_ctr a = c_ctr b /\ c_dead a = c_dead b /\ c_ops a = c_ops b.
@@ -32,7 +32,7 @@ Qed.
 
 Lemma sim_enabled s1 s2 l : sim s1 s2 -> enabled s1 l = enabled s2 l.
 Proof.
-  intros (_ & Hp & Hc). destruct l as [c o|c|c c' ord|c|c]; try reflexivity.
+  intros (_ & Hp & _ & Hc). destruct l as [c o|c|c c' ord|c|c|c]; try reflexivity.
   unfold enabled. destruct (ctlv_fields _ _ (Hc c)) as (E1 & E2 & _). rewrite <- E1, <- E2, <- Hp.
   destruct (c_pc (r_cs s1 c)) as [|i rest]; [reflexivity|]. destruct i; try reflexivity.
   all: destruct todo as [|[sub fs] todo]; [reflexivity|]; try rewrite trysend_has_default; reflexivity.
@@ -42,7 +42,7 @@ Lemma sim_start_visit s1 s2 c c' ord e t rem rest1 rest2 :
   sim s1 s2 -> rest1 = rest2 ->
   sim (start_visit s1 c c' ord e t rem rest1) (start_visit s2 c c' ord e t rem rest2).
 Proof.
-  intros (Hr & Hp & Hc) ->. unfold start_visit, sim. cbn [r_reg r_pubs r_cs with_cs]. repeat split; auto.
+  intros (Hr & Hp & Hk & Hc) ->. unfold start_visit, sim. cbn [r_reg r_pubs r_cancel r_cs with_cs]. repeat split; auto.
   rewrite Hr. apply ctlv_upd.
   - apply ctlv_upd; [assumption|]. destruct (ctlv_fields _ _ (Hc c)) as (E1 & E2 & E3 & E4 & E5). unfold ctlv; cbn; congruence.
   - assert (H : ctlv (upd (r_cs s1) c (set_pc (r_cs s1 c)
@@ -58,16 +58,22 @@ Qed.
 Theorem sim_step s1 s2 l : sim s1 s2 -> sim (step s1 l) (step s2 l).
 Proof.
   intro S. unfold step. rewrite <- (sim_enabled s1 s2 l S). destruct (enabled s1 l); [|assumption].
-  destruct S as (Hr & Hp & Hc).
+  destruct S as (Hr & Hp & Hk & Hc).
   assert (S : sim s1 s2) by (repeat split; assumption).
-  destruct l as [c o|c|c c' ord|c|c]; cbn [step_enabled];
+  destruct l as [c o|c|c c' ord|c|c|c]; cbn [step_enabled];
     destruct (ctlv_fields _ _ (Hc c)) as (E1 & E2 & E3 & E4 & E5).
   - (* op *)
-    rewrite <- E1, <- E4. destruct (c_pc (r_cs s1 c)); [|assumption]. destruct (c_dead (r_cs s1 c)); [assumption|].
-    unfold sim. cbn [r_reg r_pubs r_cs with_cs]. repeat split; auto.
-    apply ctlv_upd; [assumption|]. unfold ctlv, program. cbn. rewrite Hr. congruence.
+    rewrite <- E1, <- E4, <- Hk. destruct (c_pc (r_cs s1 c)).
+    + destruct (c_dead (r_cs s1 c) || mem_conn c (r_cancel s1)); [assumption|].
+      unfold sim. cbn [r_reg r_pubs r_cancel r_cs with_cs]. repeat split; auto.
+      apply ctlv_upd; [assumption|]. unfold ctlv, program. cbn. rewrite Hr. congruence.
+    + destruct (is_disc o && negb (c_dead (r_cs s1 c)) && negb (mem_conn c (r_cancel s1))); [|assumption].
+      unfold sim. cbn [r_reg r_pubs r_cancel r_cs]. repeat split; auto. congruence.
   - (* run *)
-    unfold run_instr. rewrite <- E1. destruct (c_pc (r_cs s1 c)) as [|i rest]; [assumption|].
+    unfold run_instr. rewrite <- E1, <- Hk. destruct (c_pc (r_cs s1 c)) as [|i rest].
+    { destruct (mem_conn c (r_cancel s1)); [|assumption].
+      unfold sim. cbn [r_reg r_pubs r_cancel r_cs]. repeat split; auto.
+      apply ctlv_upd; [assumption | unfold ctlv; cbn; congruence]. }
     destruct i.
     + unfold sim. cbn. repeat split; [congruence | assumption|]. apply ctlv_upd; [assumption | unfold ctlv; cbn; congruence].
     + rewrite <- Hr. destruct (reg_get c (r_reg s1)); unfold sim; cbn [r_reg r_pubs r_cs with_cs]; repeat split; auto; try congruence;
@@ -110,6 +116,11 @@ Proof.
       unfold sim; cbn [r_reg r_pubs r_cs with_cs]; repeat split; auto; intro x.
     all: try (apply ctlv_upd; [assumption | unfold ctlv; cbn; congruence]).
     all: unfold upd; destruct (Nat.eqb x c) eqn:Ex; [apply Nat.eqb_eq in Ex; subst x; unfold ctlv; cbn; congruence | apply Hc].
+  - (* skip *)
+    rewrite <- E1, <- Hk. destruct (c_pc (r_cs s1 c)) as [|i rest]; [assumption|].
+    destruct (mem_conn c (r_cancel s1) && is_reply_instrb i); [|assumption].
+    unfold sim. cbn [r_reg r_pubs r_cancel r_cs with_cs]. repeat split; auto.
+    apply ctlv_upd; [assumption | unfold ctlv; cbn; congruence].
 Qed.
 
 Theorem sim_run tr : forall s1 s2, sim s1 s2 -> sim (run s1 tr) (run s2 tr).
@@ -127,6 +138,6 @@ Theorem control_independent_of_queues s1 s2 tr c :
   c_ops (r_cs (run s1 tr) c) = c_ops (r_cs (run s2 tr) c) /\
   r_reg (run s1 tr) = r_reg (run s2 tr).
 Proof.
-  intro S. destruct (sim_run tr s1 s2 S) as (Hr & _ & Hc).
+  intro S. destruct (sim_run tr s1 s2 S) as (Hr & _ & _ & Hc).
   destruct (ctlv_fields _ _ (Hc c)) as (E1 & _ & _ & _ & E5). auto.
 Qed.
